@@ -32,6 +32,9 @@ import (
 func ParseQuery(q string) (pq *proto.Query, err error) {
 	p := newParser(q)
 
+	// make sure the lexer goroutine has finished when we return.
+	defer p.lexer.drain()
+
 	defer p.recover(&err)
 
 	pq, err = p.parse()
@@ -356,6 +359,14 @@ func lex(input string) *lexer {
 func (l *lexer) run() {
 	for l.state = lexText; l.state != nil; {
 		l.state = l.state(l)
+	}
+	close(l.items)
+}
+
+// drain consumes all remaining items so that the goroutine running the
+// lexer can terminate.
+func (l *lexer) drain() {
+	for range l.items {
 	}
 }
 
